@@ -1,5 +1,6 @@
 CONSTANTS
   MaxOps = 7
+  Closed = FALSE
   MaxSyms = 4
 SPECIFICATION Spec
 INVARIANTS LatestWins Innermost EmitDone
